@@ -55,6 +55,8 @@ def correspondence(ctx, violations, known_hits):
     real = dbgcommon.cli_cross(ctx, specs, violations, limit=(60 if ctx.tier == "quick" else 1500))
     r["evaluations"] += real.get("sessions", 0)
     real["shared_stdin"] = dbgcommon.cli_shared_stream(ctx, violations, n=(24 if ctx.tier == "quick" else 400))
+    real["terminal_stdin"] = dbgcommon.cli_tty_stdin(ctx, violations)
+    r["evaluations"] += real["terminal_stdin"]["sessions"]
     if ctx.tier != "quick":
         real["very_long_run"] = very_long_run(ctx, violations)
     ctx.cleanup()
